@@ -5,9 +5,9 @@ CONSTANTS
   Catalog <- CatB
   Comp <- CompB
   UseComp = TRUE
-  MaxRx = 3
+  MaxRx = 2
   AllowDup = FALSE
-  Modes <- Modes_Two
+  Modes <- Modes_B
   MaxSys = 1
   MaxOps = 0
   Preds <- Preds_None
